@@ -355,7 +355,7 @@ func TestC15(t *testing.T) {
 		seed := bytes.Repeat([]byte{7}, 16)
 		kC15.One(ev, c15Case{Ops: []c15Op{{Op: "newmaster", Seed: seed}, {Op: "neuter", A: 0}, {Op: "zero", A: 0}}})
 		kC15.One(ev, c15Case{Ops: []c15Op{{Op: "newmaster", Seed: seed}, {Op: "neuter", A: 0}, {Op: "zero", A: 1}}})
-		kC15.Run(t, ev, perShard(pick(1500, 600000)))
+		kC15.Run(t, ev, perShard(pick(1500, 400000)))
 		ev.requireClasses("C15:zero", "C15:zero-with-live-relative", "C15:setnet", "C15:neuter-of-public-returns-same-key")
 	})
 }
